@@ -254,12 +254,18 @@ fn c03_session(ctx: &Ctx, rng: &mut Rng, st: &mut Stats, session_no: u64) {
             st.bump("go_on_position_with_single_legal_move");
         }
         st.sample_tagged(if go.contains("depth") { "depth" } else if go.contains("movetime") { "movetime" } else { "clock" }, || J::obj(vec![("position_command", J::s(pos_cmd.clone())), ("go", J::s(go.clone()))]));
-        let r = eng.command(&pos_cmd, Duration::from_secs(30)).and_then(|pre| {
-            if !pre.is_empty() {
-                st.bump("output_after_position_command");
-            }
-            eng.command(&go, Duration::from_secs(120))
-        });
+        // a third of the time position and go are sent back to back (no isready in between)
+        let r = if rng.chance(1, 3) {
+            st.bump("go_sent_right_after_position_without_isready");
+            eng.send(&pos_cmd).and_then(|_| eng.command(&go, Duration::from_secs(120)))
+        } else {
+            eng.command(&pos_cmd, Duration::from_secs(30)).and_then(|pre| {
+                if !pre.is_empty() {
+                    st.bump("output_after_position_command");
+                }
+                eng.command(&go, Duration::from_secs(120))
+            })
+        };
         searched_before = true;
         match r {
             Ok(lines) => {
@@ -715,7 +721,20 @@ fn strip_volatile(line: &str) -> String {
 fn transcript(ctx: &Ctx, script: &[String], from: usize) -> Result<Vec<String>, String> {
     let mut e = bb::Engine::spawn(&ctx.engine_bin)?;
     let mut out = vec![];
+    // Half of the scripts (chosen by their content) are sent the way a GUI in a hurry does: no
+    // isready after commands that have no answer of their own (position, ucinewgame), so that
+    // 'ucinewgame / position / go' reach the engine back to back.
+    let sparse = hash64(&script.to_vec()) % 2 == 0;
     for (i, cmd) in script.iter().enumerate() {
+        if sparse && (cmd.starts_with("position") || cmd == "ucinewgame") {
+            if e.send(cmd).is_err() {
+                return Err(format!("died on '{}'", cmd));
+            }
+            if i >= from {
+                out.push(format!("> {}", cmd));
+            }
+            continue;
+        }
         match e.command(cmd, Duration::from_secs(300)) {
             Ok(lines) => {
                 if i >= from {
@@ -1129,6 +1148,17 @@ fn junk_line(rng: &mut Rng) -> Vec<u8> {
         4 => "xq_\u{00e9}\u{4e2d}\u{6587} \u{1F600} \u{2654}".as_bytes().to_vec(),
         5 => vec![b'x', b'q', 0xff, 0xfe, b' ', 0xc3, 0x28, b'z'], // not valid UTF-8
         6 => format!("xq_{}", rng.next()).into_bytes(),
+        7 => {
+            // buffer-boundary probe: ONE token that is exactly L bytes of filler followed at once by
+            // a command word (L at and around the powers of two) — a reader that cuts lines at a
+            // fixed size would see the command word as a line of its own
+            let l = (1usize << rng.range(7, 16)) as i64 + rng.range(-2, 2);
+            let mut v = vec![b'x'; l.max(4) as usize];
+            v[1] = b'q';
+            v[2] = b'_';
+            v.extend_from_slice(rng.pick(&["isready", "uci", "quit", "ucinewgame", "isready"]).as_bytes());
+            v
+        }
         _ => rng.pick(WORDS).as_bytes().to_vec(),
     }
 }
@@ -1395,7 +1425,7 @@ fn unhex(s: &str) -> Vec<u8> {
 pub fn run_c16(ctx: &Ctx) -> i32 {
     let spec = Spec {
         level: "exploration",
-        rule: "a case is one input stream fed to a fresh process of the real binary: 0..25 lines drawn from uci / isready / ucinewgame / position (unrelated games, and in half of the streams a running game line whose move list grows, stays or shrinks from one position command to the next, also across ucinewgame) / go depth 1 / junk (blank, whitespace, tabs, 20 kB lines, unicode, invalid UTF-8, near-miss command words, GUI-to-engine words this engine does not implement), with optional surrounding blanks and CRLF endings, ending with quit (possibly followed by more lines), at end of input after a full line, or in the middle of a silent line. The transcript must match the protocol model (id lines + uciok per uci, readyok per isready, info* + bestmove per go, nothing else), the exit status must be 0, and after the end of input the process may read fd 0 only a few more times: strace counts zero-length reads and 10 of them with the process still running is the violation witness (an event count, not a timeout). A few streams additionally run under valgrind memcheck (supplementary: invalid accesses or uses of uninitialised memory in the read loop and at exit would be reported). Distinct by input bytes; non-trivial when the stream expects at least one answer or ends without quit",
+        rule: "a case is one input stream fed to a fresh process of the real binary: 0..25 lines drawn from uci / isready / ucinewgame / position (unrelated games, and in half of the streams a running game line whose move list grows, stays or shrinks from one position command to the next, also across ucinewgame) / go depth 1 / junk (blank, whitespace, tabs, 20 kB lines, single tokens of 2^7..2^16 bytes of filler glued to a command word — a reader that cuts lines at a fixed size would see the word as a line of its own —, unicode, invalid UTF-8, near-miss command words, GUI-to-engine words this engine does not implement), with optional surrounding blanks and CRLF endings, ending with quit (possibly followed by more lines), at end of input after a full line, or in the middle of a silent line. The transcript must match the protocol model (id lines + uciok per uci, readyok per isready, info* + bestmove per go, nothing else), the exit status must be 0, and after the end of input the process may read fd 0 only a few more times: strace counts zero-length reads and 10 of them with the process still running is the violation witness (an event count, not a timeout). A few streams additionally run under valgrind memcheck (supplementary: invalid accesses or uses of uninitialised memory in the read loop and at exit would be reported). Distinct by input bytes; non-trivial when the stream expects at least one answer or ends without quit",
         assumptions: vec!["junk never contains a recognised command word as a separate token, so 'ignore the unknown token and parse the rest' engines and 'ignore the whole line' engines agree on every stream sent".into(), "strace -e trace=read,exit_group observes the engine's system calls; when strace cannot attach the fallback witness is CPU burnt while alive after end of input".into()],
         required: if ctx.replay.is_some() { vec![] } else { vec!["streams_ending_with_quit", "streams_ending_mid_line", "streams_ending_at_end_of_input", "answers_expected", "end_of_input_observed_under_strace", "game_lines_continued_across_ucinewgame"] },
         exhaustive: false,
